@@ -531,6 +531,28 @@ class AClassNoCloseSource(SourceBase):
     obj = property(lambda self: self)
 
 
+class AReiterNoCloseSource(_ReiterMixin, AClassNoCloseSource):
+    """async ITERABLE whose cursors cannot be closed (no aclose): still one cursor per ``__aiter__`` call"""
+
+    def __init__(self, ctx, name, items, spec=None):
+        super().__init__(ctx, name, items, spec)
+        self._init_reiter()
+        outer = self
+
+        class _NoCloseIterable:
+            def __aiter__(self_inner):  # noqa: N805
+                return outer._open(AClassNoCloseSource)
+
+            def __vsig__(self_inner):  # noqa: N805
+                return outer.__vsig__()
+
+        self._iterable = _NoCloseIterable()
+
+    @property
+    def released(self):
+        return True
+
+
 class _PullAwaitable:
     """Plain awaitable object (neither coroutine nor generator object)."""
 
@@ -616,6 +638,7 @@ _SRC_CLASSES = {
     "alateclose": ALateCloseSource,
     "agencoro": AGenCoroSource,
     "areiter": AReiterSource,
+    "areiter_noclose": AReiterNoCloseSource,
     "reiter": ReiterSource,
     "list": ListSource,
     "tuple": TupleSource,
